@@ -74,6 +74,10 @@ func (g Dag) simulate() (map[string]string, map[string][]emitted) {
 					em[n.Name] = append(em[n.Name], emitted{"", ""})
 					continue
 				}
+				if n.Aux {
+					em[n.Name+"#aux"] = append(em[n.Name+"#aux"], emitted{name + ".x", content + n.Name + "|aux|" + params + "\n"})
+					files[name+".x"] = content + n.Name + "|aux|" + params + "\n"
+				}
 				content += n.Name + "|out|" + params + "\n"
 				em[n.Name] = append(em[n.Name], emitted{name + ".o", content})
 				files[name+".o"] = content
@@ -106,6 +110,11 @@ func netMetas(g Dag) []string {
 // a schedule of its own; Props/C04 proves that every schedule yields the zip-semantics streams)
 func netValues(ctx *Ctx, c c04Case, dir string, balanced bool) {
 	names, ins, src, ok := netEncode(c.Dag)
+	for _, n := range c.Dag.Nodes {
+		if n.Aux {
+			ok = false // the model's tasks have one output
+		}
+	}
 	if !ok {
 		ctx.Res.Count("net-values=not-covered")
 		return
@@ -168,6 +177,12 @@ func runC04(ctx *Ctx, c c04Case) {
 	ctx.Res.Eval(fmt.Sprintf("%v", c), total >= 2, c)
 	ctx.Res.Count(fmt.Sprintf("bufsize=%d", c.Buf))
 	for _, n := range c.Dag.Nodes {
+		if n.Aux {
+			ctx.Res.Count("process-with-two-out-ports")
+			break
+		}
+	}
+	for _, n := range c.Dag.Nodes {
 		if n.Kind == "proc" && len(em[n.Name]) > c.Buf {
 			ctx.Res.Count("stream>buffer")
 			break
@@ -221,7 +236,7 @@ func runC04(ctx *Ctx, c c04Case) {
 	}
 	extra := []string{}
 	for p := range got {
-		if strings.HasSuffix(p, ".o") {
+		if strings.HasSuffix(p, ".o") || strings.HasSuffix(p, ".x") {
 			if _, ok := files[p]; !ok {
 				extra = append(extra, p)
 			}
